@@ -18,9 +18,10 @@ tree evaluated by the kernel; the harness replays the same trees on the real cod
 import PolyplyVerif.Generated.Top
 import PolyplyVerif.Model.TopParse
 import PolyplyVerif.Proofs.TopParse
+import PolyplyVerif.Proofs.C08Flatten
 
 namespace PolyplyVerif.C08
-open PolyplyVerif PolyplyVerif.TopParse PolyplyVerif.Proofs.TopParse
+open PolyplyVerif PolyplyVerif.TopParse PolyplyVerif.Proofs.TopParse PolyplyVerif.Proofs.C08Flatten
 
 /-! ### the translated section table -/
 
@@ -128,6 +129,59 @@ example : errOf (readSingle ["#define WATER", "#ifndef WATER", "#error needs wat
     errOf (readSingle ["#define WATER", "#ifndef WATER", "#else", "#error has water", "#endif"]) = some "error-directive" := by
   decide
 
+/-! ### the flattening theorem -/
+
+/-- **Reading an include tree = reading its flattened text**, for every WELL-FORMED tree (`wellFormed`, a
+purely syntactic scan defined in `Model/TopParse.lean`): any number of files, any include depth and tree shape,
+repeated includes, conditionals around includes / type lines / `#error`, `#define` before and after use,
+moleculetypes spread over files.  Proof: induction on the include depth (`sim_file`), inner induction on the
+lines of a file (`sim_lines`), with a simulation relation between the stack of per-file directors and the single
+director over the text flattened so far.
+
+If the tree is read, then the flattened text (`flatten`, the file of the property statement) is read by the
+single-file reader and both results have the same observables (`ObsEq`): defines, defaults, atom types,
+non-bonded parameters, type tables WITHOUT the conditional tag, the collected molecule types as a multiset
+(after `sealGroup`, which cuts what vermouth's itp reader ignores), molecule list and `mol_idx_by_name`.
+
+`_partial` because
+* well-formedness is a hypothesis — every dropped clause has a proved counterexample below that is replayed on
+  the real code: includes inside a moleculetype (`C08_cx_include_in_moleculetype`), sections continued across a
+  file boundary (`C08_cx_section_across_files`), conditionals after a moleculetype
+  (`C08_cx_conditional_after_moleculetype`), `#define` inside a conditional (`C08_cx_define_inside_conditional`),
+  `[ molecules ]` in an included file (`C08_cx_molecules_in_included_file`);
+* only the direction "tree read ⇒ flattened text read, same result" is proved; the converse (an error in the
+  tree is an error in the flattened text) is left to the correspondence/oracle (a molecule type with a malformed
+  name line is reported when its file ends in the tree but only at the very end in the flattened text);
+* molecule types are compared as collected line groups — `read_itp` itself is vermouth's (trusted, and compared
+  on the real objects by the oracle), and two DIFFERENT moleculetypes with the same name are outside the
+  statement (the last one read wins, and the reading order differs). -/
+theorem C08_flatten_equiv_partial (fs : FS) (top : Path) (st : FlatSt) (gt : Glob)
+    (hwf : wellFormed fs top = true) (hfl : flatten fs top = .ok st) (hrt : readTop fs top = .ok gt) :
+    ∃ gf, readSingle st.out = .ok gf ∧ ObsEq gt gf :=
+  flatten_equiv fs top st gt hwf hfl hrt
+
+def fsGood : FS :=
+  [(["run", "system.top"], ["#define FLEXIBLE", "#include \"../ff/forcefield.itp\"", "#ifdef HEAVY", "#error no heavy hydrogens",
+                            "#endif", "[ moleculetype ]", "MOL1 1", "[ atoms ]", "1 CT 1 RES A1 1", "#ifdef FLEXIBLE",
+                            "[ bonds ]", "#endif", "#include \"../mols/water.itp\"", "[ system ]", "title",
+                            "[ molecules ]", "SOL 2", "MOL1 1", "SOL 1"]),
+   (["ff", "forcefield.itp"], ["[ defaults ]", "1 2 yes 0.5 0.8333", "#ifdef FLEXIBLE", "#include \"sub/flex.itp\"", "#else",
+                               "#include \"sub/rigid.itp\"", "#endif", "[ atomtypes ]", "CT 12.011 0.0 A 0.35 0.276"]),
+   (["ff", "sub", "flex.itp"], ["[ bondtypes ]", "CT CT 1 0.153 224262.4", "#include \"./common.itp\""]),
+   (["ff", "sub", "rigid.itp"], ["[ constrainttypes ]", "CT CT 1 0.153"]),
+   (["ff", "sub", "common.itp"], ["[ angletypes ]", "CT CT CT 1 112.7 488.273"]),
+   (["mols", "water.itp"], ["[ moleculetype ]", "SOL 2", "[ atoms ]", "1 OW 1 SOL OW 1", "[ settles ]", "1 1 0.1 0.16"])]
+
+/-- non-vacuity: a tree with nested directories, a conditional include with `#else`, a nested include, an inactive
+`#error`, a conditional inside a moleculetype and an include after it is well formed, is read, and the theorem's
+conclusion can be observed on it -/
+example : wellFormed fsGood ["run", "system.top"] = true ∧
+    (okOf (readTop fsGood ["run", "system.top"])).map (fun g => (g.molecules, g.types.map (·.1), g.groups.length))
+      = some (["SOL", "SOL", "MOL1", "SOL"], ["bonds", "angles"], 2) ∧
+    (okOf (flatten fsGood ["run", "system.top"])).map (fun st => (okOf (readSingle st.out)).map (fun g => (g.molecules, g.types.map (·.1), g.groups.length)))
+      = some (some (["SOL", "SOL", "MOL1", "SOL"], ["bonds", "angles"], 2)) := by
+  decide
+
 /-! ### counterexamples for the hypotheses of the flattening theorem (each replayed on the real code) -/
 
 def fsPosre : FS :=
@@ -139,6 +193,7 @@ def fsPosre : FS :=
 is read as a stand-alone topology — reading fails, while the flattened file (include dropped, POSRES not
 defined) is read. -/
 theorem C08_cx_include_in_moleculetype :
+    wellFormed fsPosre ["top.top"] = false ∧
     errOf (readTop fsPosre ["top.top"]) = some "unknown-section" ∧
     ((okOf (flatten fsPosre ["top.top"])).map fun st => (st.abort, (errOf (readSingle st.out)))) = some (false, none) := by
   decide
@@ -151,6 +206,7 @@ def fsSection : FS :=
 /-- Section state does not cross file boundaries: an included file that continues the includer's section is
 rejected, the flattened file is read. -/
 theorem C08_cx_section_across_files :
+    wellFormed fsSection ["top.top"] = false ∧
     errOf (readTop fsSection ["top.top"]) = some "unknown-section" ∧
     (match flatten fsSection ["top.top"] with
      | .ok st => (match readSingle st.out with
@@ -163,6 +219,8 @@ theorem C08_cx_section_across_files :
 /-- After a `[ moleculetype ]` header of the same file `#ifdef/#else/#endif` are stored as molecule lines,
 not evaluated: an `#error` under a false condition aborts (single file, no include involved). -/
 theorem C08_cx_conditional_after_moleculetype :
+    wellFormed [(["t"], ["[ moleculetype ]", "M 1", "[ atoms ]", "1 A 1 R a 1", "[ system ]", "title",
+                        "#ifdef NOT_DEFINED", "#error not meant for this system", "#endif", "[ molecules ]", "M 1"])] ["t"] = false ∧
     errOf (readSingle ["[ moleculetype ]", "M 1", "[ atoms ]", "1 A 1 R a 1", "[ system ]", "title",
                        "#ifdef NOT_DEFINED", "#error not meant for this system", "#endif", "[ molecules ]", "M 1"])
       = some "error-directive" := by
@@ -170,6 +228,7 @@ theorem C08_cx_conditional_after_moleculetype :
 
 /-- A `#define` inside a conditional whose condition is false is executed all the same. -/
 theorem C08_cx_define_inside_conditional :
+    wellFormed [(["t"], ["#ifdef NOT_DEFINED", "#define HIDDEN", "#endif", "#ifdef HIDDEN", "#error hidden", "#endif"])] ["t"] = false ∧
     errOf (readSingle ["#ifdef NOT_DEFINED", "#define HIDDEN", "#endif", "#ifdef HIDDEN", "#error hidden", "#endif"])
       = some "error-directive" := by
   decide
@@ -181,6 +240,7 @@ def fsMolecules : FS :=
 /-- `[ molecules ]` in an included file is expanded when THAT file ends, before the molecule types of the
 including file have been read, and with a counter that restarts at 0 in every file. -/
 theorem C08_cx_molecules_in_included_file :
+    wellFormed fsMolecules ["top.top"] = false ∧
     errOf (readTop fsMolecules ["top.top"]) = some "unknown-molecule" ∧
     ((okOf (flatten fsMolecules ["top.top"])).map fun st => (okOf (readSingle st.out)).map (·.molecules))
       = some (some ["M", "M"]) := by
